@@ -10,7 +10,7 @@ MANIFEST = dict(
 
 def run(ck):
     ck.build_and_audit()
-    compat.suite_pairs(ck, ck.scale(30, 700), ck.scale(6, 10), ck.scale(10, 24))
+    compat.suite_pairs(ck, ck.scale(24, 700), ck.scale(6, 10), ck.scale(10, 24))
     return ck.finish(rule=compat.RULE)
 
 
